@@ -159,8 +159,8 @@ def gen_project(r) -> dict:
     if repo_kind in ("file", "both"):
         extra[".thailintignore"] = "\n".join(repo_pats) + "\n"
     marker = r.choice(["yaml", "yaml", "yaml+git", "yaml+pyproject"])
-    return {"files": files, "extra": extra, "lint_ign": lint_ign, "root_pats": repo_pats if repo_kind in ("file", "both") else yaml_pats,
-            "marker": marker}
+    # _load_repo_ignores (since fix bbae54e): .thailintignore patterns followed by the config's ignore list
+    return {"files": files, "extra": extra, "lint_ign": lint_ign, "root_pats": repo_pats + yaml_pats, "marker": marker}
 
 
 COMBOS = [("home", "abs", "dir"), ("proj", "dot", "dir"), ("parent", "rel", "dir"), ("grand", "rel", "dir"), ("other", "abs", "dir"),
@@ -600,12 +600,18 @@ def corpus_groups() -> list[dict]:
 
 
 def _merge_known(chk: Check):
-    """known_findings.json is assembled by the lead (tools/mkmanifest.py) from known.d/; until then read known.d/C09.json directly"""
+    """known_findings.json is assembled by the lead (tools/mkmanifest.py) from known.d/ and may lag behind; known.d/C09.json is the
+    authority for this property: entries `known` may explain an oracle failure, entries `fixed: ...` suppress nothing"""
     f = VERIF / "known.d" / f"{PROP}.json"
     if f.exists():
+        chk.known = {"known": {}, "fixed": {}}
         for e in json.loads(f.read_text()).get("findings", []):
-            if e.get("property") == PROP and e.get("status") == "known":
-                chk.known["known"].setdefault(e["key"], e)
+            if e.get("property") != PROP:
+                continue
+            if e.get("status") == "known":
+                chk.known["known"][e["key"]] = e
+            elif str(e.get("status", "")).startswith("fixed"):
+                chk.known["fixed"][e["key"]] = e
 
 
 # ------------------------------------------------------------------ the check
@@ -754,7 +760,8 @@ def run(tier: str, seed: int, replay: str | None = None) -> int:
             continue
         relevant = [FLAGS[i] for i in range(len(FLAGS)) if not cand[1 + i]]
         if cand[0] and ideal_ok and not relevant:
-            relevant = list(FLAGS)  # several listed defects overlap on this input: only switching all of them off restores the spec
+            # several listed defects overlap on this input: only switching all of them off restores the spec
+            relevant = [f for f in FLAGS if f in chk.known["known"]]
         if cand[0] and ideal_ok:
             for k in relevant:
                 chk.known_finding(k, {"location": g["loc"], "cwd": inv["cwd"], "targets": rec["targets"], "cmd": inv["cmd"],
